@@ -117,7 +117,7 @@ fn run(ctx: &Ctx) {
     // Scale: one token repeated up to 10^6 times, parsed on a thread with a 2 MiB stack. This is
     // all the extra shard built without optimisation runs (recursion stays recursion there).
     if ctx.profile == "unopt" {
-        ctx.run_cases("robustness-scale", ctx.tier.pick(320, 3_200), scale_strategy(), check_scale);
+        ctx.run_cases("robustness-scale", ctx.tier.pick(320, 1_600), scale_strategy(), check_scale);
         return;
     }
     ctx.run_cases("robustness-scale", ctx.share(ctx.tier.pick(1_600, 16_000)), scale_strategy(), check_scale);
